@@ -21,7 +21,7 @@ ASSUMPTIONS = [
     'stop() from a second thread is given no exit code (SystemExit would be raised in that thread, not in run()\'s caller)',
     'a harness generate_events handler keeps the idle wait from blocking and ends a run that ignores stop() after 400 further iterations',
 ]
-REQUIRED = ['stop_in_started', 'stop_mid_chain', 'stop_in_generator_step', 'stop_via_systemexit', 'stop_via_keyboardinterrupt',
+REQUIRED = ['sched_stop_runs_to_completion_at_a_loop_preemption_point', 'stop_in_started', 'stop_mid_chain', 'stop_in_generator_step', 'stop_via_systemexit', 'stop_via_keyboardinterrupt',
             'stop_from_second_thread', 'exit_code_given', 'events_fired_after_stop', 'stopped_handler_fires', 'queued_before_run',
             'second_cycle', 'stop_when_not_running', 'stop_of_registered_child_while_root_runs', 'systemexit_while_not_running']
 REQUIRED_OBLIGATIONS = ['STARTED_ONCE', 'STOPPED_ONCE', 'DRAINED', 'EXIT_CODE', 'RUN_ENDS', 'STOP_NOT_RUNNING_NOOP']
@@ -319,6 +319,12 @@ def gen_case(rng):
 def plan(tier, seed):
     sched = [{'kind': 'sched', 'lo': lo, 'hi': lo + 400, 'step': 10 if tier == 'quick' else 3, 'ks': [4, 5, 6] if tier == 'quick' else [2, 3, 4, 5, 6, 7, 9]}
              for lo in (40, 440, 840, 1240)]
+    # the loop thread pre-empted at EVERY yield point of its way into the idle wait (nothing else to do: no task), the second thread's
+    # stop() then runs to completion (and, thorough, is itself pre-empted): run() must still end
+    for mech in ('fallback', 'Select') if tier == 'quick' else ('fallback', 'Select', 'Poll', 'EPoll'):
+        scn = {'mech': mech, 'firers': 1, 'events': 1, 'task': False}
+        sched += [{'kind': 'sched', 'scn': scn, 'lo': lo, 'hi': lo + 250, 'step': 1, 'ks': ['INF'] if tier == 'quick' else ['INF', 3, 5, 8]}
+                  for lo in (0, 250, 500, 750)]
     if tier == 'quick':
         return [{'kind': 'corpus'}] + [{'kind': 'random', 'seed': seed * 1000 + i, 'n': 40} for i in range(15)] + sched
     return [{'kind': 'corpus'}] + [{'kind': 'random', 'seed': seed * 100000 + i, 'n': 700} for i in range(32)] + sched
@@ -394,7 +400,7 @@ def run_sched_batch(spec):
     import circuits
     sched.start_monitoring(os.path.join(os.path.dirname(circuits.__file__), 'core') + os.sep)
     b = Batch(PROPERTY)
-    scn = {'mech': 'fallback', 'firers': 1, 'events': 1, 'task': True}
+    scn = spec.get('scn') or {'mech': 'fallback', 'firers': 1, 'events': 1, 'task': True}
     base = c03.run_schedule(scn, record=True)
     if not base['finished'] or base['record'] is None:
         b.inconclusive_because('scheduler baseline did not finish')
@@ -407,13 +413,28 @@ def run_sched_batch(spec):
         preempted = any(sw[0] == 'S' and sw[1] == 'L' and ':' in sw[2] for sw in res['switches'])
         return plan, res, preempted
     shown = 0
-    for a1 in range(spec['lo'], spec['hi'], spec['step']):
+    hi = min(spec['hi'], len(base['record']['L']) + 5)
+    for a1 in range(spec['lo'], hi, spec['step']):
         for k in spec['ks']:
+            k = c03.INF if k == 'INF' else k
             plan, res, preempted = one(a1, k)
             case = {'sched': scn, 'plan': [list(x) for x in plan]}
+            if (res['violation'] or res['deadlock']) and dict(res.get('fired', {})).get('stop') == 'returned':
+                # stop() returned to the second thread, yet the loop thread sleeps without limit (or can never run again): run() does
+                # not return and `stopped` stays queued
+                b.case(case, nontrivial=True, distinct_key=[list(x[:3]) for x in res['switches']])
+                b.reached('sched_foreign_stop_schedules')
+                b.fail(case, 'RUN_ENDS', {'note': 'stop() returned in the second thread but run() never returns: the loop sleeps with `stopped` queued',
+                                          'scheduler_report': res['violation'] or res['deadlock'], 'switches': [list(x) for x in res['switches'][-6:]]},
+                       dedup='sched-lost')
+                shown += 1
+                continue
             if not res['finished'] or res['violation'] or res['deadlock']:
                 b.inconclusive_because('scheduled foreign stop did not finish: %r' % (res['violation'] or res['deadlock'],))
                 continue
+            if k == c03.INF:
+                b.reached('sched_stop_runs_to_completion_at_a_loop_preemption_point')
+            b.ok('RUN_ENDS')
             b.case(case, nontrivial=preempted, distinct_key=[list(x[:3]) for x in res['switches']])
             b.reached('stop_from_second_thread')
             b.reached('sched_foreign_stop_schedules')
